@@ -686,12 +686,10 @@ func expandRet(r *ssa.Return, vals []ssa.Value, at *ssa.BasicBlock, facts []Cond
 	if !hasPhi && depth <= 3 {
 		// a result held in a local cell that several stores can reach (named results, `var err error`)
 		for k, v := range vals {
-			u, isU := v.(*ssa.UnOp)
+			// resolve as far as a unique definition goes; what is left may be a load that several stores reach
+			u, isU := Resolve(v).(*ssa.UnOp)
 			if !isU || u.Op != token.MUL {
 				continue
-			}
-			if Resolve(v) != v {
-				continue // uniquely resolvable
 			}
 			cases := cellCases(u)
 			if len(cases) < 2 {
